@@ -1,0 +1,42 @@
+//! Crate-internal accessors for `crate::verif::internals` (feature `verif-hooks`).
+
+pub(crate) use super::runner::Runner;
+use super::runner::ParTask;
+use super::runner_settings::{chunk_size, num_threads};
+use crate::chunk_size::ResolvedChunkSize;
+use crate::{ChunkSize, NumThreads, Params};
+
+fn task(task: u8) -> ParTask {
+    match task {
+        0 => ParTask::Collect,
+        1 => ParTask::EarlyReturn,
+        _ => ParTask::Reduce,
+    }
+}
+
+pub(crate) fn calc_chunk_size(t: u8, input_len: Option<usize>, max_num_threads: usize, c: ChunkSize) -> (bool, usize) {
+    match chunk_size::calc_chunk_size(task(t), input_len, max_num_threads, c) {
+        ResolvedChunkSize::Exact(x) => (true, x),
+        ResolvedChunkSize::Min(x) => (false, x),
+    }
+}
+
+pub(crate) fn set_num_threads(input_len: Option<usize>, available: Option<usize>, n: usize) -> usize {
+    num_threads::verif_access::set_num_threads(input_len, available, n)
+}
+
+pub(crate) fn auto_num_threads(input_len: Option<usize>, available: Option<usize>) -> usize {
+    num_threads::verif_access::auto_num_threads(input_len, available)
+}
+
+pub(crate) fn calc_num_threads(input_len: Option<usize>, n: NumThreads) -> usize {
+    num_threads::calc_num_threads(input_len, n)
+}
+
+pub(crate) fn new_runner(params: Params, t: u8, input_len: Option<usize>) -> Runner {
+    Runner::verif_new(params, task(t), input_len)
+}
+
+pub(crate) fn runner_settings(r: &Runner) -> (usize, bool, usize) {
+    r.verif_settings()
+}
